@@ -297,6 +297,11 @@ class DBNInference(Inference):
             if interface_nodes_dict:
                 evidence_time.update(interface_nodes_dict)
 
+            # Take the message for the next slice before answering this slice's
+            # query: a query re-initialises the engine from the unmodified junction
+            # tree, which drops the incoming interface potential.
+            clique_phi = self._get_factor(mid_bp, evidence_time)
+
             if variable_dict[time_slice]:
                 variable_time = self._shift_nodes(variable_dict[time_slice], 1)
                 new_values = mid_bp.query(
@@ -311,7 +316,6 @@ class DBNInference(Inference):
                     changed_values[new_key] = new_factor
                 factor_values.update(changed_values)
 
-            clique_phi = self._get_factor(mid_bp, evidence_time)
             out_clique_phi = self._marginalize_factor(
                 self.interface_nodes_1, clique_phi
             )
